@@ -444,6 +444,11 @@ on after space.add(s, src) in Coordinator.runOnce
    do gNeedHead = s.headSpace
    do gNeedProc = s.processSpace
 
+// C01 at the end of the planning of one replica: every discovered target that an in-sync shard reported is still in the
+// planned set of an in-sync shard that reported it (so it stays listed whether or not that shard's update succeeds)
+on call updateScrapingTargets(shards, act) in Coordinator.runOnce
+   assert[C01] @coverage_after_planning covered(changeAbleShards, active)
+
 // proof steps for the status bookkeeping at the end of an iteration (each is checked, then used)
 on call Coordinator.updateScrapeStatusShards(c, shards, status) in Coordinator.runOnce
    assert @lemma_active_keys gActive == keys(active)
